@@ -304,7 +304,7 @@ func (db *TempPool) OperationHashes(
 		func(k []byte, b []byte) (bool, error) {
 			meta, err := ReadFrameHeaderOperation(b)
 			if err != nil {
-				removeordereds[removeorderedsindex] = k
+				removeordereds = append(removeordereds[:removeorderedsindex], k)
 				removeorderedsindex++
 
 				return true, nil
@@ -314,7 +314,7 @@ func (db *TempPool) OperationHashes(
 			case err != nil:
 				return false, err
 			case !ok:
-				removeops[removeopsindex] = meta.Operation()
+				removeops = append(removeops[:removeopsindex], meta.Operation())
 				removeopsindex++
 
 				return true, nil
@@ -323,7 +323,7 @@ func (db *TempPool) OperationHashes(
 			// NOTE filter duplicated fact; last one will be selected and the
 			// previous one is removed.
 			if prev, found := facts[meta.Fact().String()]; found {
-				removeops[removeopsindex] = ops[prev][0]
+				removeops = append(removeops[:removeopsindex], ops[prev][0])
 				removeopsindex++
 
 				copy(ops[prev:], ops[prev+1:opsindex])
